@@ -311,7 +311,7 @@ func (e *echoCtx) paramSafe(fn *ssa.Function, pr *ssa.Parameter, depth int) (boo
 		return false, "too deep"
 	}
 	idx := paramIndex(fn, pr)
-	node := e.p.CallGraph().Nodes[fn]
+	node := e.p.cgNode(fn)
 	if node == nil || idx < 0 {
 		return false, "parameter without known callers"
 	}
@@ -403,7 +403,7 @@ func (e *echoCtx) safeCallResult(fn *ssa.Function, call *ssa.Call, idx int, dept
 func ruleEcho(p *Program, r *Result) {
 	e := &echoCtx{p: p, class: map[*types.Named]int{}, errSafe: map[*ssa.Function]int{}, fldSafe: map[*types.Var]int{}}
 	n := 0
-	for _, fn := range p.UFuncs() {
+	for _, fn := range p.UUnits() {
 		if fn.Pkg != nil && fn.Pkg.Pkg.Path() == modPath {
 			continue // the library's own error replies are constants checked below through the same scan
 		}
